@@ -28,6 +28,7 @@ type VerifC10Case struct {
 	Kind  string `json:"kind"` // identity | dropodd | dup | create
 	Full  bool   `json:"full"` // fullsync pipeline instead of incremental
 	Wrap  bool   `json:"wrap"` // wrap the JS transform in a recording transform
+	Json  []map[string]interface{} `json:"json,omitempty"` // value-normalisation case: [value, its JS image] in the description language of server.VerifGoValue
 	Copy  bool   `json:"copy"` // copy mode (zz_verif_c10copy.go): real DatasetSink, rich contents, compared with a plain copy
 }
 
@@ -45,6 +46,8 @@ type VerifC10Obs struct {
 	RefChanges  int  `json:"ref_changes"`  // change-log length of the plain copy's sink
 	ReChanges   int  `json:"re_changes"`   // changes added to the sink by a second run from scratch (token reset)
 	FullChanges int  `json:"full_changes"` // changes added to the sink by a further full-sync run
+	// value-normalisation case: toJsonValue of the two values
+	JsonOut []map[string]interface{} `json:"json_out,omitempty"`
 }
 
 type verifRecSink struct {
@@ -130,6 +133,13 @@ var verifC10JS = map[string]string{
 
 // VerifC10Run executes one case on a fresh store under dir.
 func VerifC10Run(c VerifC10Case, dir string) (obs VerifC10Obs) {
+	if len(c.Json) == 2 {
+		obs.Outcome = "ok"
+		obs.Rerun = -1
+		obs.Sink, obs.Seen = [][]int{}, [][]int{}
+		obs.JsonOut = []map[string]interface{}{server.VerifToJsonValue(server.VerifGoValue(c.Json[0])), server.VerifToJsonValue(server.VerifGoValue(c.Json[1]))}
+		return
+	}
 	if c.Copy {
 		return VerifC10Copy(c, dir)
 	}
